@@ -94,27 +94,6 @@ func (o *c09) Step(r *StepRec) []Violation {
 	for _, id := range r.CtxIDs {
 		created[id] = true
 	}
-	// what the owning module did to its context from inside a response callback of this step
-	reacted := map[string]string{}
-	for _, cb := range r.CBs {
-		if cb.React != "" && cb.ReactOK {
-			reacted[cb.Ctx] = cb.React
-			o.hit("module_" + cb.React + "_in_response_callback")
-			// the keeper accepted it: it must hold when the step is over (a killed context may already be gone)
-			if p1, ok := post.Ctxs[cb.Ctx]; ok {
-				want := stCompleted
-				if cb.React == "pause" {
-					want = stPaused
-				}
-				if cb.React == "start" {
-					want = stRunning
-				}
-				if p1.State != want {
-					o.fail("c09:react_lost:"+cb.React, "the module's %s of context %s inside its response callback succeeded, but the context is %s after %s", cb.React, short(cb.Ctx), stateName(p1.State), a.Kind)
-				}
-			}
-		}
-	}
 	// contexts their module killed from inside a "cannot pay" notification of this step (its own and,
 	// where the module stops all its feeds, the siblings): completed from that moment on
 	killedAt := map[string]uint64{}
@@ -131,6 +110,30 @@ func (o *c09) Step(r *StepRec) []Violation {
 				if p1.BatchCounter != kc.Counter {
 					o.fail("c09:batch_after_kill", "context %s was killed by its module at batch %d inside a state callback and is at batch %d after %s: a completed context was issued (or skipped) a batch",
 						short(kc.Ctx), kc.Counter, p1.BatchCounter, a.Kind)
+				}
+			}
+		}
+	}
+	// what the owning module did to its context from inside a response callback of this step
+	reacted := map[string]string{}
+	for _, cb := range r.CBs {
+		if cb.React != "" && cb.ReactOK {
+			reacted[cb.Ctx] = cb.React
+			o.hit("module_" + cb.React + "_in_response_callback")
+			// the keeper accepted it: it must hold when the step is over (a killed context may already be gone)
+			if p1, ok := post.Ctxs[cb.Ctx]; ok {
+				want := stCompleted
+				if cb.React == "pause" {
+					want = stPaused
+				}
+				if cb.React == "start" {
+					want = stRunning
+				}
+				if _, killedLater := killedAt[cb.Ctx]; killedLater {
+					want = stCompleted // and later in the same block the module stopped all its feeds
+				}
+				if p1.State != want {
+					o.fail("c09:react_lost:"+cb.React, "the module's %s of context %s inside its response callback succeeded, but the context is %s after %s", cb.React, short(cb.Ctx), stateName(p1.State), a.Kind)
 				}
 			}
 		}
